@@ -11,6 +11,22 @@ use crate::types::Value;
 /// Example: "Order.quantity * Order.price" with facts containing Order.quantity=10, Order.price=100
 /// Returns: Value::Integer(1000) or Value::Number(1000.0)
 pub fn evaluate_expression(expr: &str, facts: &Facts) -> Result<Value> {
+    evaluate_with_depth(expr, facts, 0)
+}
+
+/// Maximum depth of the operand recursion. Every operator adds one level on its
+/// left operand, so a chain such as `-----…` would otherwise overflow the stack.
+const MAX_EXPRESSION_DEPTH: usize = 256;
+
+fn evaluate_with_depth(expr: &str, facts: &Facts, depth: usize) -> Result<Value> {
+    if depth > MAX_EXPRESSION_DEPTH {
+        return Err(RuleEngineError::EvaluationError {
+            message: format!(
+                "Expression has more than {} chained operators",
+                MAX_EXPRESSION_DEPTH
+            ),
+        });
+    }
     let expr = expr.trim();
 
     // Try to evaluate as simple arithmetic expression
@@ -25,8 +41,8 @@ pub fn evaluate_expression(expr: &str, facts: &Facts) -> Result<Value> {
         let op = &expr[pos..pos + 1];
         let right = &expr[pos + 1..].trim();
 
-        let left_val = evaluate_expression(left, facts)?;
-        let right_val = evaluate_expression(right, facts)?;
+        let left_val = evaluate_with_depth(left, facts, depth + 1)?;
+        let right_val = evaluate_with_depth(right, facts, depth + 1)?;
 
         return apply_operator(&left_val, op, &right_val);
     }
@@ -37,8 +53,8 @@ pub fn evaluate_expression(expr: &str, facts: &Facts) -> Result<Value> {
         let op = &expr[pos..pos + 1];
         let right = &expr[pos + 1..].trim();
 
-        let left_val = evaluate_expression(left, facts)?;
-        let right_val = evaluate_expression(right, facts)?;
+        let left_val = evaluate_with_depth(left, facts, depth + 1)?;
+        let right_val = evaluate_with_depth(right, facts, depth + 1)?;
 
         return apply_operator(&left_val, op, &right_val);
     }
